@@ -3,7 +3,6 @@
 package scorch
 
 import (
-	"github.com/RoaringBitmap/roaring/v2"
 	rt "github.com/blevesearch/bleve/v2/internal/verifrt"
 	segment "github.com/blevesearch/scorch_segment_api/v2"
 )
@@ -93,6 +92,13 @@ func verifCheckApplied(oldLive []int, oldInt []byte, newRoot *IndexSnapshot, b *
 	}
 }
 
+// verifPrepare runs the real prepareSegment in a goroutine and receives the introduction it sends,
+// so that the harness can apply it (or delay it) the way the introducer loop would.
+func verifPrepare(s *Scorch, data segment.Segment, ids []string, intOps map[string][]byte) *segmentIntroduction {
+	go func() { _ = s.prepareSegment(data, ids, intOps, nil) }()
+	return <-s.introductions
+}
+
 func verifSetup(nsegs, maxDocs, nIDs int) (*Scorch, *IndexSnapshot, []int, []byte) {
 	s := verifNewScorch()
 	root, _ := verifSymRoot(s, nsegs, maxDocs, nIDs)
@@ -117,21 +123,18 @@ func VerifH_C01_IntroduceStep() {
 	s, root, oldLive, oldInt := verifSetup(nsegs, rt.Param("max_docs", 2), nIDs)
 	root.AddRef() // a reader keeps the old snapshot
 	b := verifBatch(nIDs)
-	next := &segmentIntroduction{id: 50, ids: b.ids, internal: b.intOps, applied: make(chan error, 1)}
+	var data segment.Segment
 	if b.seg != nil {
-		next.data = b.seg
+		data = b.seg
 	}
-	next.obsoletes = map[uint64]*roaring.Bitmap{}
+	// the introduction is built by the real prepareSegment (obsoletes computed against this root);
+	// the harness takes the introducer's place on the channel
+	next := verifPrepare(s, data, b.ids, b.intOps)
 	stale := -1
 	if nsegs > 0 && rt.Choice("stale", 2) == 1 {
+		// the root changed since the batch was prepared: the segment's entry is not in the map
 		stale = rt.Choice("stale_seg", nsegs)
-	}
-	for i, ss := range root.segment {
-		if i == stale {
-			continue
-		}
-		d, _ := ss.segment.DocNumbers(b.ids)
-		next.obsoletes[ss.id] = d
+		delete(next.obsoletes, root.segment[stale].id)
 	}
 	err := s.introduceSegment(next)
 	rt.Assert(err == nil, "introduceSegment succeeds")
